@@ -287,15 +287,18 @@ func (c *reusableConn) closeWithErr(err error) {
 		err = net.ErrClosed
 	}
 	c.closeOnce.Do(func() {
-		c.t.m.Lock()
-		delete(c.t.conns, c)
-		delete(c.t.idleConns, c)
-		c.t.m.Unlock()
-
 		c.closeErr = err
 		c.c.Close()
 		close(c.closeNotify)
 	})
+
+	// Remove c from the pool outside closeOnce: ReuseConnTransport.Close() runs
+	// closeOnce (closeWithErrByTransport) while holding t.m, so taking t.m inside
+	// closeOnce would deadlock with it.
+	c.t.m.Lock()
+	delete(c.t.conns, c)
+	delete(c.t.idleConns, c)
+	c.t.m.Unlock()
 }
 
 func (c *reusableConn) closeWithErrByTransport(err error) {
